@@ -13,7 +13,7 @@ structure Rel (p : Parser) (A : Abs) : Prop where
   stash : p.stash = A.cur
   comp : p.comp = A.comp
   log : p.log = A.log
-  mark : A.cur ≠ [] → (p.sentinel = 1 ↔ A.sc.pend = true)
+  mark : p.eolp = true ↔ A.sc.pend = true
 
 /-- `_ical_proc` on the stash of `q0` and what the loops around `_ical_pull` do with its result -/
 def bookProc (q0 : Parser) (acc : List Instr) : Parser × List Instr :=
@@ -73,21 +73,22 @@ theorem doProc_log (q0 : Parser) :
 
 /-- `_ical_proc` plus bookkeeping is `procA` -/
 theorem bookProc_spec (q0 : Parser) (A : Abs) (hs : q0.stash = A.cur) (hc : q0.comp = A.comp)
-    (hl : q0.log = A.log) (hne : A.cur ≠ []) :
+    (hl : q0.log = A.log) (hne : A.cur ≠ []) (he : q0.eolp = false) :
     Rel (bookProc q0 A.ins).1 (flushA A) ∧ (bookProc q0 A.ins).2 = (flushA A).ins ∧
       (bookProc q0 A.ins).1.buf = q0.buf ∧ (bookProc q0 A.ins).1.bix = q0.bix := by
+  have hmk : q0.eolp = true ↔ ({} : Sc).pend = true := by rw [he]
   rw [flushA_of_ne A hne]
   unfold bookProc procA
   rw [doProc_snd, doProc_comp, hs, hc]
   cases hr : (procLine A.comp A.cur).2 with
   | none =>
     simp only [hr]
-    refine ⟨⟨rfl, ?_, ?_, fun h => absurd rfl h⟩, trivial, rfl, rfl⟩
+    refine ⟨⟨rfl, ?_, ?_, hmk⟩, trivial, rfl, rfl⟩
     · rw [doProc_comp, hs, hc]
     · rw [doProc_log, hs, hl]
   | eop =>
     simp only [hr]
-    refine ⟨⟨rfl, ?_, ?_, fun h => absurd rfl h⟩, trivial, rfl, rfl⟩
+    refine ⟨⟨rfl, ?_, ?_, hmk⟩, trivial, rfl, rfl⟩
     · show ({ (doProc q0).1.comp with meth := none } : Comp) = _
       rw [doProc_comp, hs, hc]
     · show (doProc q0).1.log = _
@@ -95,10 +96,10 @@ theorem bookProc_spec (q0 : Parser) (A : Abs) (hs : q0.stash = A.cur) (hc : q0.c
   | ve =>
     simp only [hr]
     split
-    · refine ⟨⟨rfl, ?_, ?_, fun h => absurd rfl h⟩, rfl, rfl, rfl⟩
+    · refine ⟨⟨rfl, ?_, ?_, hmk⟩, rfl, rfl, rfl⟩
       · rw [doProc_comp, hs, hc]
       · rw [doProc_log, hs, hl]
-    · refine ⟨⟨rfl, ?_, ?_, fun h => absurd rfl h⟩, ?_, rfl, rfl⟩
+    · refine ⟨⟨rfl, ?_, ?_, hmk⟩, ?_, rfl, rfl⟩
       · rw [doProc_comp, hs, hc]
       · rw [doProc_log, hs, hl]
       · unfold mkInstr; rw [doProc_comp, hs, hc]
